@@ -171,7 +171,7 @@ theorem mem_stateless_enterDir (k : Model.Validate.Kind) (st : Stack) (dr : Dir)
 
 theorem mem_stateless_enterField (k : Model.Validate.Kind) (st : Stack) al n args ds ss :
     k ∈ stateless S {} d (mk st (.enterField al n args ds ss)) ↔
-      (k = .unknownField ∧ ∃ p, Stack.par st = some p ∧ n ≠ "__typename" ∧ S.field? p n = none ∧ ds.any (·.name = "ifdef") = false)
+      (k = .unknownField ∧ ∃ p, Stack.par st = some p ∧ n ≠ "__typename" ∧ S.field? p n = none)
       ∨ (k = .leafWithSel ∧ ∃ t, ((Stack.par st).bind (fun p => S.field? p n)).bind (fun f => S.concrete f.ty) = some t
             ∧ S.isLeaf t = true ∧ ss ≠ [])
       ∨ (k = .compositeNoSel ∧ ∃ t, ((Stack.par st).bind (fun p => S.field? p n)).bind (fun f => S.concrete f.ty) = some t
